@@ -48,41 +48,44 @@ func CreateInMemory(parse parser.Parser) (*InMemory, error) {
 }
 
 func createInMemory(cursor *InMemory, parse parser.Parser, pos int) error {
-	n, isEnd, err := parse.Pull()
+	// Iterative on purpose: one stack frame per event would make the stack
+	// grow with the size of the document instead of its nesting depth.
+	for {
+		n, isEnd, err := parse.Pull()
 
-	if errors.Is(err, io.EOF) {
-		return nil
+		if errors.Is(err, io.EOF) {
+			return nil
+		}
+
+		if err != nil {
+			return err
+		}
+
+		if _, isNamespace := n.(node.Namespace); isEnd || !isNamespace {
+			pos = inheritNamespaces(cursor, pos)
+		}
+
+		if isEnd {
+			cursor = cursor.parent
+			continue
+		}
+
+		switch v := n.(type) {
+		case node.Namespace:
+			pos = addNamespace(v, cursor, pos)
+		case node.Attribute:
+			pos++
+			cursor.attributes = append(cursor.attributes, createNonElement(v, cursor, pos))
+		case node.Element:
+			pos++
+			next := createElement(v, cursor, pos)
+			cursor.nodes = append(cursor.nodes, next)
+			cursor = next
+		default:
+			pos++
+			cursor.nodes = append(cursor.nodes, createNonElement(v, cursor, pos))
+		}
 	}
-
-	if err != nil {
-		return err
-	}
-
-	if _, isNamespace := n.(node.Namespace); isEnd || !isNamespace {
-		pos = inheritNamespaces(cursor, pos)
-	}
-
-	if isEnd {
-		return createInMemory(cursor.parent, parse, pos)
-	}
-
-	switch v := n.(type) {
-	case node.Namespace:
-		pos = addNamespace(v, cursor, pos)
-	case node.Attribute:
-		pos++
-		cursor.attributes = append(cursor.attributes, createNonElement(v, cursor, pos))
-	case node.Element:
-		pos++
-		next := createElement(v, cursor, pos)
-		cursor.nodes = append(cursor.nodes, next)
-		return createInMemory(next, parse, pos)
-	default:
-		pos++
-		cursor.nodes = append(cursor.nodes, createNonElement(v, cursor, pos))
-	}
-
-	return createInMemory(cursor, parse, pos)
 }
 
 // inheritNamespaces gives the element its own namespace node for every
